@@ -239,3 +239,10 @@ def run(M, rep, tier, only=None):
     from .common import run_shared
     from . import c13
     run_shared(c13, M, rep, tier, {"C13.R2": "C04.R7"})
+    # ---- R8: what was deleted is gone for every handle: entity handles keep no followed link (metadata, ...) in memory
+    R8 = rep.rule("C04.R8", "entity handles remember no followed link: after a deletion no handle still answers with the deleted entity",
+                  floor=1, technique="stateless-handle classification (see C02.R7)")
+    from . import stateless
+    n8 = stateless.run(M, rep, R8, only_classes=set(ENTITY_CLASSES))
+    if not n8:
+        rep.ok(R8, "entity handles", "no instance attribute is written outside the constructors")
